@@ -34,6 +34,24 @@ PROPS = {
         "trusted_base": TB_COMMON + ["oracle hypotheses on strconv.FormatFloat/ParseFloat: H-float-rt (parse(format 'f' -1 bits x) = x for finite x), H-float-syn (the text is a plain decimal), tested on every float of every run"],
         "assumptions": [],
     },
+    "C06": {
+        "streams": [{"name": "rowops"}],
+        "rule": "rowops stream: histories of 1-40 public Row operations (Set, SetAtIndex, SetValue incl. nil, SetValueAtIndex, ImportAtKey, ImportAtIndex, Import of slices and maps, ImportAtPath, UnmarshalJSON of valid / truncated / non-object text, CloneRow) over the key alphabet {\"\", a, ab, b, e-acute, a.b, c}, indexes -2..6, values of every supported type incl. Values, rows, slices, maps, structs, pointers; after every step the error class, the whole row (canonical) and 3-6 random readers are compared with the model; a history is distinct by its operation list",
+        "trusted_base": TB_COMMON + ["hand model JL.model.Row of row.go/value.go (tied by this stream only)", "Go map iteration order of Import(map) is observed from the resulting key order and handed to the model"],
+        "assumptions": ["no Value is shared between two rows or keys (sharing is the subject of C15)"],
+    },
+    "C17": {
+        "streams": [{"name": "rowops"}],
+        "rule": "rowops stream with the hostile argument generator (absent / empty keys, indexes -2..6, paths of 0-4 segments incl. empty ones, nil Values, struct / pointer / NaN values, MapTo on non-pointers, nil and mismatching structs); every call runs under recover(); plus the resource oracle (failing leaf nested 1-24 deep, time and error size bounded) and nesting depth 100/1000 (10^4 in the thorough tier)",
+        "trusted_base": TB_COMMON + ["hand model JL.model.Row of row.go/value.go (tied by this stream only)", "stack depth and resource use are properties of the Go runtime: checked on the implementation only"],
+        "assumptions": [],
+    },
+    "C18": {
+        "streams": [{"name": "rowops", "focus": "C18"}],
+        "rule": "rowops stream plus the document oracle: random documents (objects nested to depth 5, arrays of objects, mixed arrays, nulls) loaded both by parsing their text and by the equivalent programmatic construction; every path of 1-3 segments over the alphabet {a, b, ab, c, \"\", e-acute, zz} and random 4-segment paths: GetAtPath and FindValuesAtPath on both rows against a reference key-by-key walk of the document; ImportAtPath then whole-document comparison",
+        "trusted_base": TB_COMMON + ["hand model JL.model.Row of row.go/value.go (tied by this stream only)"],
+        "assumptions": ["object member names unique within each object for the document oracle"],
+    },
     "C14": {
         "streams": [{"name": "cast", "zones": ZONES, "zones_quick": ["Europe/Paris", "America/St_Johns"]}],
         "rule": "cast stream focused on time: RFC 3339 strings with explicit offsets -23:59..+23:59, fractional seconds, leap days, year bounds; integer seconds; time.Time values in UTC, Local and fixed zones; run under several process time zones; distinct by (target, source, zone)",
